@@ -1,16 +1,17 @@
 """C06 — inheritance, super(), include and import compose templates as specified (DESIGN.md §3 C06)."""
-import json, sys
+import json, re, sys
 
 READY = True
 
 META = {
-    "technique": "Lean 4 proof (block-stack driver with LoadBlocks / parent switch / depth cursor / BlockState::Replace / recursion-limit accounting refines a stack-free specification for every environment of the fragment and every fuel; termination, cycle, double-extends, missing-template, include and import theorems) + differential correspondence of the model with the real engine on enumerated and sampled template environments",
+    "technique": "Lean 4 proof (block-stack driver with LoadBlocks / parent switch / depth cursor / BlockState::Replace / recursion-limit accounting refines a stack-free specification for every environment of the fragment and every fuel; termination, cycle, double-extends, missing-template, include-candidate-selection, variable-visibility and import theorems) + differential correspondence of the model with the real engine on enumerated and sampled template environments",
     "category": "proof",
-    "text": "Kernel-checked theorems about MJ/Model/Blocks.lean (transcription of LoadBlocks, the end-of-instructions parent switch, call_block incl. self.name() and required blocks, perform_super emitted and captured, perform_include, import/from-import codegen, loops, macro calls, variable frames, the undefined behaviour (printing / attribute access / iteration of undefined values per mode, tables regenerated from utils.rs and vm/mod.rs), the auto-escape mode (each template's initial mode as the default callback derives it from the name — extension table regenerated from defaults.rs; include/import switch to the included template's own mode and back, blocks / super() / macros / the parent layout reached through extends keep the current mode, {% autoescape %} blocks; write_escaped for Html with the regenerated escape table and for Json) and the recursion limit = outer_stack_depth + frames with INCLUDE_/MACRO_RECURSION_COST regenerated from the sources): blocks_refine_spec — for every environment whose templates are built from text, variables, set, macros, block tags, self.name(), super() (both also captured into variables), required blocks, conditional extends (executed or not, anything before/behind it), include (names, lists, ignore missing; included templates being inheritance chains of their own), import/from-import, loops and macro calls, with well-founded block nesting, and for every fuel, the stateful driver returns exactly the output or error chain of the specification (no block stacks, no cursor, no capture stack, no loaded set); corollaries block_renders_most_derived, super_goes_one_up, untouched_falls_through, child_text_discarded; render_block_most_derived / render_block_on_fresh_state (the State::render_block entry points), rendering_terminates (the recursion limit, not the model's fuel, bounds every nest; the driver runs with exactly the proven fuel), extends_terminates / cycle_is_detected_error, include_cycle_errors (include cycles end in BadInclude…InvalidOperation), double_extends_error, missing_is_error_not_truncation, include_first_existing, include_ignore_missing_forgives_only_missing (a template lookup has three outcomes — found / missing / load error of its own kind — and only `missing` lets the next candidate be tried or is forgiven by ignore missing), import_exports_toplevel, import_of_extending_template, include_keeps_closures_apart (macro closures: every frame has a closure slot, assignments write through to the frame's closure, macros look their free variables up in the closure they captured; an include runs the included file in the includer's frame with the closure detached — no closure that existed before the include is changed by anything the included file, its includes, imports or parents assign, the includer's closure is attached again afterwards, and nothing the includer assigns or encloses later reaches a closure the included file opened). The model is tied to /repo by rendering every generated environment (all 1- and 2-template block assignments exhaustively, sampled chains of up to 4 templates with include/import/self-call snippets at top level, in loops, macros and blocks, static/dynamic/conditional extends, captured super, required blocks, inheritance and include cycles, double extends, missing templates) with the real engine in supervised child processes (hang / stack overflow = failure) and comparing output or the exact error-kind chain with the Lean model; template names carry mixed extensions (.html .txt .json .xml .js .htm .yaml, with .j2/.jinja suffixes) and the variable values contain the characters the modes treat differently; the Lean specification itself is evaluated on every case inside the fragment, an independent substitution-style spec in Python is the oracle, and a metamorphic oracle checks for every case that a wrapper template of another mode that only includes t0 renders exactly what t0 renders on its own.",
+    "text": "Kernel-checked theorems about MJ/Model/Blocks.lean (transcription of LoadBlocks, the end-of-instructions parent switch, call_block incl. self.name() and required blocks, perform_super emitted and captured, perform_include, import/from-import codegen, loops, macro calls (BlockState::Isolate: the block table and its cursors stay visible), variable frames, the undefined behaviour (tables regenerated from utils.rs and vm/mod.rs), the auto-escape mode (each template's initial mode as the default callback derives it from the name — extension table regenerated from defaults.rs; include/import switch to the included template's own mode and back, blocks / super() / macros / the parent layout keep the current mode, {% autoescape %} blocks nested up to AE_NEST_MAX = 8 deep directly in one another; write_escaped with the regenerated escape table) and the recursion limit = outer_stack_depth + frames with INCLUDE_/MACRO_RECURSION_COST regenerated from the sources). THE ARGUMENT of include / import / from-import is a value of the model (Arg: not an object — a string or another primitive — or an object of some ObjectRepr together with what try_iter() yields, or an object that cannot be iterated); `choices` (the candidates perform_include builds) and `notFoundRaised` (the tail condition) interpret tables regenerated from vm/mod.rs on every run (C06_INCLUDE_CHOICES: which ObjectReprs reach try_iter() — every filter in front of it removes kinds —, what the fallback arm is, the atoms of the TemplateNotFound condition), `select` is the candidate-selection rule and `includeTemplate` what happens to the selected template. blocks_refine_spec — for every environment whose templates are built from text, variables, set, macros, block tags, self.name(), super() ANYWHERE (block bodies, macro bodies, outside of blocks — where in an included chain the engine resolves it against the name of the block the include tag stands in: specChain's `inh`), required blocks, conditional extends (executed or not, anything before/behind it), include / import / from-import of any argument value (names, non-string scalars, lists, tuples, lazily evaluated iterables, one-shot iterators, maps, enumerable and non-iterable objects; ignore missing; included templates being inheritance chains of their own), loops, nested autoescape blocks and macro calls whose bodies may reference blocks, with well-founded block nesting, and for every fuel, the stateful driver returns exactly the output or error chain of the specification (no block stacks, no cursor, no capture stack, no loaded set; the spec reads the candidates off the value without any table: Arg.cands); corollaries block_renders_most_derived, super_goes_one_up, untouched_falls_through, child_text_discarded; render_block_most_derived / render_block_on_fresh_state, rendering_terminates (the recursion limit, not the model's fuel, bounds every nest; the driver runs with exactly the proven fuel), extends_terminates / cycle_is_detected_error, include_cycle_errors, double_extends_error, missing_is_error_not_truncation, include_first_existing, include_ignore_missing_forgives_only_missing, import_exports_toplevel (for any argument whose first existing candidate is the module), import_of_extending_template, include_keeps_closures_apart. NEW (include argument): include_candidates_any_iterable (every object that can be iterated yields its elements whatever its ObjectRepr, a non-object is one name, a non-iterable object is one non-string name, never `no candidates`; the model's ORepr covers exactly the enum's variants — an added filter on the object kind makes it false), include_follows_selection (perform_include = select, then render / load error / not-a-string error / TemplateNotFound iff something was tried and ignore missing is off), selection_is_first_existing (the selected template is the first candidate that exists, in iteration order, for every kind of carrier; conversely only missing names stand in front of it), include_renders_first_existing (statement level), include_nothing_exists (no candidate exists and something was asked for: TemplateNotFound unless ignore missing), include_never_silently_skips (Ok implies: a candidate was rendered and the result is its result, or the argument yields no candidate at all, or ignore missing was given and every candidate is a missing name). NEW (variables): include_sees_includer_variables (the included template runs on the includer's own frame stack: `{{ v }}` in it prints what a lookup at the include tag finds — loop variable, block frame, sets made so far, render context), include_assigns_into_current_frame_only (a successful include returns the same number of frames and every frame below the current one unchanged), import_leaves_importer_variables (import / from-import leave ALL of the importer's frames unchanged and bind exactly the fresh frame's locals / one of its values), super_outside_blocks. The model is tied to /repo by rendering every generated environment with the real engine in supervised child processes (hang / stack overflow = failure) and comparing output or the exact error-kind chain with the Lean model: all 1- and 2-template block assignments exhaustively, sampled chains of up to 4 templates with 48 kinds of include/import/self-call snippets at top level, in loops, macros, blocks and autoescape blocks, static/dynamic/conditional extends, captured super, required blocks, cycles, double extends, missing and unloadable templates, closures across composition, auto-escape mode crossings, and the enumerated ARGUMENT AXIS (family incl-arg: {string, non-string scalars, list literal, tuple, Vec from the environment, sliced list, |reverse, Value::make_iterable, one-shot iterator, list repetition, map literal, BTreeMap, enumerable plain object, non-iterable object} x {first candidate exists, a later one, none, one name, empty, non-string entries before / behind an existing name} x {ignore missing or not} x {include, import, from-import of a macro, from-import of a variable} x {top level, loop, macro call, autoescape block, block}), variable visibility (includer's set before/after, loop variable, block frame, macro argument x include/import/from-import), super() outside of blocks in included chains, block references in macro bodies, nested autoescape blocks; template names carry mixed extensions and the variable values contain the characters the modes treat differently; the Lean specification itself is evaluated on every case inside the fragment, an independent substitution-style spec in Python (which reads the candidates off the argument without looking at the object kind) is the oracle, and a metamorphic oracle checks for every case that a wrapper template of another mode that only includes t0 renders exactly what t0 renders on its own.",
     "design_ref": "DESIGN.md §3 C06",
-    "level_note": "Trusted: Lean kernel; hand transcription of vm/mod.rs (LoadBlocks, end of instructions, call_block, perform_super, perform_include, ExportLocals, macro calls), vm/state.rs (BlockStack, with_execution_state), vm/context.rs (depth accounting) and the Import/FromImport/Extends/Block code generation into MJ/Model/Blocks.lean, validated differentially (not proved) on ~1.6e4 (quick) / ~1.4e5 (thorough) environments; the pretty-printer from abstract templates to Jinja source in harness/src/bin/c06.rs. Outside the proven fragment (validated by the correspondence only): super() at the top level of an included template (the engine hands the includer's current block name into the include), an autoescape block directly inside another one, block references from a block to a lower-numbered block or from inside a macro, extends inside loops/macros/blocks, closures opened inside the body of a macro call (macros with parameters / nested macro definitions), the recursion cost of calling a closure macro. The specification threads variable frames exactly like the engine (it abstracts from the block machinery, not from variable scoping).",
+    "level_note": "Trusted: Lean kernel; hand transcription of vm/mod.rs (LoadBlocks, end of instructions, call_block, perform_super, perform_include, ExportLocals, macro calls), vm/state.rs (BlockStack, with_execution_state), vm/context.rs (depth accounting) and the Import/FromImport/Extends/Block code generation into MJ/Model/Blocks.lean, validated differentially (not proved) on ~2.0e4 (quick) / ~1.5e5 (thorough) environments; the table extractor lib/tables/c06.py (shapes it does not recognise are reported missing = broken tie); the pretty-printer from abstract templates to Jinja source and the mapping `argument kind -> (ObjectRepr, what it yields)` in harness/src/bin/c06.rs and MJ/Drive/C06.lean (a wrong mapping shows up as a model disagreement). MOVED FROM VALIDATED TO PROVED in this round: the include / import / from-import argument as a value of any kind with the candidate-selection rule (was: lists of names only); super() at the top level of an included template and in macro bodies (was excluded from the fragment; the spec now carries the inherited block name); block references from inside macro bodies (was excluded; macro bodies now count as part of the enclosing block body); an autoescape block directly inside another one (was `unsupported`; now nested up to 8 deep, with the fuel bound of rendering_terminates extended accordingly); the variable visibility rule of include and the isolation rule of import (were implicit in the shared frame threading; now separate theorems via the frames-below invariant of Rel). STILL outside the proven fragment (validated by the correspondence only, ~0.5% of the generated cases): block references from a block to a lower- or equal-numbered block (block recursion; there the engine renders the definition at the cursor level, not the most-derived one, and the error chains of the ensuing recursion differ), extends inside loops / macros / blocks (the model answers `unsupported`; not generated), {% call %} blocks (not modelled), closures opened inside the body of a macro call (macros with parameters / nested macro definitions), the recursion cost of calling a closure macro. Recorded finding (KNOWN_FINDINGS, family super-inherited): super() outside of blocks in an included chain that defines the includer's block name twice renders the second definition instead of failing; model and Lean specification describe it, the Python oracle reports it. The specification threads variable frames exactly like the engine (it abstracts from the block machinery, not from variable scoping).",
 }
 
+ARG_RE = re.compile(r" (ia [01]|impa|froma) ([a-z]+) ")
 LIMIT = 60  # nesting bound of the Python spec (only cycles reach it)
 
 
@@ -31,6 +32,16 @@ class Toks:
     def items(self):
         return [self.item() for _ in range(self.num())]
 
+    def arg(self):
+        """kind k cand..: the value behind include / import / from-import; a candidate is a template
+        index (the string naming it) or None (a value that is not a string)"""
+        kind = self.next()
+        cands = []
+        for _ in range(self.num()):
+            t = self.next()
+            cands.append(None if t.startswith("!") else int(t))
+        return (kind, cands)
+
     def item(self):
         k = self.next()
         if k == "t":
@@ -46,7 +57,17 @@ class Toks:
         if k == "i":
             ign = self.num() == 1
             n = self.num()
-            return ("incl", [self.num() for _ in range(n)], ign)
+            names = [self.num() for _ in range(n)]
+            return ("incl", ("str" if n == 1 else "lit", names), ign)
+        if k == "ia":
+            ign = self.num() == 1
+            return ("incl", self.arg(), ign)
+        if k == "impa":
+            a = self.arg()
+            return ("imp", a, self.num())
+        if k == "froma":
+            a = self.arg()
+            return ("from", a, self.num(), self.num())
         if k == "v":
             return ("var", self.num())
         if k == "set":
@@ -56,9 +77,9 @@ class Toks:
         if k == "macv":
             return ("macv", self.num(), self.num())
         if k == "imp":
-            return ("imp", self.num(), self.num())
+            return ("imp", ("str", [self.num()]), self.num())
         if k == "from":
-            return ("from", self.num(), self.num(), self.num())
+            return ("from", ("str", [self.num()]), self.num(), self.num())
         if k == "attr":
             return ("attr", self.num(), self.num())
         if k == "keys":
@@ -275,9 +296,28 @@ class Spec:
             raise SpecErr("InvalidOperation")  # required block not provided
         return self.body(defs, n, 0, scopes, silent, depth + 1)
 
-    def include(self, names, ign, scopes, silent, depth):
+    @staticmethod
+    def candidates(arg):
+        """the property: "the named template (or the first existing one of a list)".  A value that
+        can be iterated is the list of what it yields — a list, a tuple, a lazily evaluated
+        sequence, an iterator, a map (its keys), an object that enumerates: the statement does not
+        depend on which; anything else is one name (and a name has to be a string)."""
+        kind, cands = arg
+        if kind in ("str", "sc"):
+            return [cands[0]]
+        if kind == "plain":
+            return [None]           # neither a string nor iterable: not a template name
+        if kind == "rep":
+            return cands + cands    # the list repeated twice
+        if kind in ("lit", "tup", "ctx", "slice", "rev", "lazy", "once", "map", "ctxmap", "pobj"):
+            return list(cands)
+        raise NotImplementedError
+
+    def include(self, arg, ign, scopes, silent, depth):
         missing = False
-        for t in names:
+        for t in self.candidates(arg):
+            if t is None:
+                raise SpecErr("InvalidOperation")  # template name is not a string
             if t < len(self.env) and load_error(self.env, t):
                 # the name exists but cannot be loaded: that is not "missing"
                 raise SpecErr(load_error(self.env, t))
@@ -356,7 +396,7 @@ class Spec:
         if k == "imp":
             scopes.append({})
             try:
-                self.include([it[1]], False, scopes, False, depth)
+                self.include(it[1], False, scopes, False, depth)
                 exports = {k: v for k, v in scopes[-1].items() if k != "__c"}
             finally:
                 scopes.pop()
@@ -365,7 +405,7 @@ class Spec:
         if k == "from":
             scopes.append({})
             try:
-                self.include([it[1]], False, scopes, True, depth)
+                self.include(it[1], False, scopes, True, depth)
                 val = scopes[-1].get(it[2], UNDEF)
             finally:
                 scopes.pop()
@@ -460,7 +500,7 @@ class Spec:
             try:
                 out = []
                 for sub in it[2]:
-                    if sub[0] in ("extends", "ae"):
+                    if sub[0] == "extends":
                         raise NotImplementedError
                     out += self.item(sub, defs, cur, scopes, silent, extending, depth + 1)
                 return out
@@ -528,54 +568,60 @@ def judge(r, case, impl, detail, stream="render"):
     sys.setrecursionlimit(10000)
     if impl in ("panic", "hang") or impl.startswith("crash"):
         r.oracle_failure(case, f"engine {impl} ({detail}) instead of rendering or reporting an error", impl.split(":")[0] + ":" + detail.split(" (")[0][:80])
-        return
+        return True
     if impl.startswith("syntax:") or impl.startswith("bad"):
         r.broken.append(f"harness generated an unparsable template: {case[:200]} -> {impl}")
-        return
+        return True
     want = spec_result(env, cfg["ub"], stream, cfg["blk"])
     if want is None:
         r.hist["oracle"]["spec-undecided"] += 1
-        return
+        return False
     r.hist["oracle"]["decided"] += 1
     if want.startswith("ok:"):
         if impl != want:
             what = "an error" if impl.startswith("err:") else "different output"
             r.oracle_failure(case, f"spec renders {want[:300]} but the engine gave {what}: {impl[:300]}",
                              ("error-instead-of-render:" if impl.startswith("err:") else "wrong-output:") + fam)
-            return
+            return True
     else:
         if impl.startswith("ok:"):
             r.oracle_failure(case, f"spec: error ({want}) but the engine reported success with output {impl[:300]}",
                              "success-instead-of-error:" + fam)
-            return
+            return True
         inner = impl[4:].split(">")[-1]
         if inner != want[4:]:
             r.oracle_failure(case, f"spec: error {want} but the engine's innermost error kind is {inner}", "error-kind:" + fam)
-            return
+            return True
     if impl.startswith("ok:") and stream == "render":
         for m in discarded_markers(env):
             if m in impl:
                 r.oracle_failure(case, f"text outside blocks of an extending template was rendered: {m}", "child-text-rendered:" + fam)
-                return
+                return True
+    return False
 
 
 def nontrivial(case):
     f = case.split(" ", 2)
-    return f[0] not in ("all1",) and (" x 1 " in case or " i " in case or " imp " in case or " from " in case)
+    return f[0] not in ("all1",) and any(t in case for t in (" x 1 ", " i ", " imp ", " from ", " ia ", " impa ", " froma "))
 
 
 def run(r):
     r.rule = ("templates named t<i>.<ext> with mixed extensions; every assignment of {absent, override, super-before, super-after} to 3 blocks (one nestable) for chains of 1 and 2 "
               "templates (exhaustive), seeded random chains of 1..4 templates with static/dynamic/conditional extends, the same "
-              "with 1-2 include/import/self-call snippets (30 kinds) at top level / in blocks / loops / macros, plus enumerated auto-escape mode crossings (includer x included x placement x include/import/from-import, child x parent for extends/super), inheritance "
-              "cycles, include cycles, double extends, missing templates, macro closures across composition (macros with a free variable declared before / after include, import and from-import tags, the variable reassigned on both sides, libraries split over two files, macros through extends), templates that exist but cannot be loaded (syntax errors, loader errors; from include lists at every position, extends, import, from-import, through chains, as the rendered template) and non-string template names; every case carries an environment configuration (add_template vs loader-backed, default vs custom delimiters, plain names vs directories + path-join callback with relative references, undefined behaviour lenient/chainable/semi-strict/strict) and is rendered through three entry points (Template::render, render_captured + State::render_block, new_state + render_block); a case is non-trivial when it executes an extends, "
+              "with 1-2 include/import/self-call snippets (48 kinds, incl. lazily evaluated / map / object arguments) at top level / in blocks / loops / macros / autoescape blocks, plus enumerated auto-escape mode crossings, inheritance "
+              "cycles, include cycles, double extends, missing templates, macro closures across composition, templates that exist but cannot be loaded and non-string template names; "
+              "family incl-arg: the include / import / from-import ARGUMENT as an axis — {string, 4 non-string scalars, list literal, tuple, Vec, sliced list, |reverse, make_iterable, one-shot iterator, list repetition, map literal, BTreeMap, enumerable plain object, non-iterable object} x "
+              "{first exists, later exists, none exists, single existing, single missing, empty, non-string entries before/behind an existing name} x {ignore missing or not} x {include, import, from-import macro, from-import variable} x {top level, loop, macro, autoescape, block}; "
+              "family visibility (who sees and changes which variable), super-included / super-inherited (super() outside of blocks in included chains), macro-blocks (block references and super() in macro bodies), ae-nested (autoescape blocks 2-3 deep); "
+              "every case carries an environment configuration (add_template vs loader-backed, default vs custom delimiters, plain names vs directories + path-join callback with relative references, undefined behaviour lenient/chainable/semi-strict/strict) and is rendered through three entry points (Template::render, render_captured + State::render_block, new_state + render_block); a case is non-trivial when it executes an extends, "
               "include or import")
     r.assumptions = [
         "template/block/variable names are the harness' canonical t<i>.<ext> (optionally in directories d<k>/ with relative references resolved by the documentation's path-join callback) / b<n> / v<n>",
         "the model runs with the fuel `renderFuel env` for which rendering_terminates proves that fuel is never what stops a render inside the fragment; outside the fragment the driver marks an exhausted fuel explicitly (FUEL-EXHAUSTED = broken), it did not occur",
     ]
     r.regen_tables(["MAX_RECURSION_ENV", "INCLUDE_RECURSION_COST", "MACRO_RECURSION_COST",
-                    "C06_AUTO_ESCAPE_EXTENSIONS", "C06_UNDEFINED_TABLES", "HTML_ESCAPE_TABLE"])
+                    "C06_AUTO_ESCAPE_EXTENSIONS", "C06_UNDEFINED_TABLES", "HTML_ESCAPE_TABLE",
+                    "C06_INCLUDE_CHOICES"])
     r.lean_prove("MJ.Props.C06", "MJ/Audit/C06.lean", extra_targets=["drive_c06"])
     exe = r.cargo_build("c06")
     if exe is None:
@@ -607,6 +653,8 @@ def run(r):
             continue
         r.count(case, nontrivial(case))
         r.hist["family"][fam.split("~")[0]] += 1
+        for m in ARG_RE.finditer(case):
+            r.hist["include/import argument kind"][m.group(1).split()[0] + ":" + m.group(2)] += 1
         r.hist["result"]["ok" if impl.startswith("ok:") else impl.split(">")[0][:40]] += 1
         r.hist["detail"][detail[:40]] += 1
         if model is not None:
@@ -625,14 +673,21 @@ def run(r):
                 if lean_spec != impl:
                     r.oracle_failure(case, f"Lean specRender gives {lean_spec[:300]} but the engine {impl[:300]}", "lean-spec:" + fam)
                 py = spec_result(parse_case(case)[1], cfg_of(case)["ub"])
-                if py is not None and (py.startswith("ok:") or lean_spec.startswith("ok:")) and py != lean_spec:
+                # family `super-inherited`: the Lean specification describes what the engine does with
+                # `super()` outside of blocks in an included chain (it resolves the includer's block
+                # name there), the Python specification reads the property (an error): the
+                # difference is the recorded finding, reported below by `judge`
+                if py is not None and (py.startswith("ok:") or lean_spec.startswith("ok:")) and py != lean_spec \
+                        and not fam.startswith("super-inherited~"):
                     r.broken.append(f"Lean spec and Python spec disagree on {case[:200]}: {lean_spec[:200]} vs {py[:200]}")
             if m.startswith("bad-case") or "UNSUPPORTED" in m:
                 r.broken.append(f"model cannot evaluate generated case {case[:200]}: {m}")
             elif impl != m:
                 r.model_disagreement(case, impl, m)
-        judge(r, case, impl, detail)
-        if rblock != "skip":
+        failed = judge(r, case, impl, detail)
+        # the render_block streams render the template first: when the render itself already
+        # contradicts the specification, what follows is a consequence, not a second finding
+        if rblock != "skip" and not failed:
             judge(r, case, rblock, "render_block", "rblock")
             judge(r, case, fresh, "render_block", "fresh")
         cfgv = cfg_of(case)
